@@ -43,7 +43,7 @@ CHECKS = {
                         "versions, and hashes after re-applying the same or different blocks. Exploration only.",
              level_note=_TRUST + "RollbackVersion has no caller inside the repository; it is driven the way doc/guides/rollback.md and the "
                         "commented baseapp tests use it (mount, rollback, restart). Height cache is off."),
-    "C09": c("storeb", "TestC09", dict(checks=6000, steps=50, timeout=400), dict(checks=40000, steps=80, shards=14, timeout=1500),
+    "C09": c("storeb", "TestC09", dict(checks=8000, steps=50, timeout=400), dict(checks=40000, steps=80, shards=14, timeout=1500),
              technique="stateful property-based testing (rapid state machine): commits, uncommitted writes, historical views "
                        "(LoadLazyVersion / CacheMultiStoreWithVersion), reads and long-lived iterators, against per-height map snapshots",
              design_ref="DESIGN.md §7 C09",
